@@ -13,7 +13,7 @@ f.write_text(src.replace(old, new, 1))
 try:
     for p in props:
         r = subprocess.run(['./check', p], cwd='/verif', capture_output=True, text=True)
-        lines = [ln for ln in r.stdout.splitlines() if ln.startswith(('VIOLATION', 'KNOWN', '['))]
+        lines = [ln[:260] for ln in r.stdout.splitlines() if ln.startswith(('VIOLATION', '['))]
         print(f'{p}: rc={r.returncode}', *lines[:4], sep='\n   ')
         if r.returncode == 2:
             print(r.stderr[-1500:])
